@@ -41,6 +41,10 @@ RULE_WALK = ("cases are transitions of the bounded TLA+ model (Gtirb.tla under t
 @plan("C03", "C04", "C16")
 def p_tree(ctx):
     tree_stages(ctx)
+    if ctx.prop == "C16":
+        names = ["SymX"]
+        for n in names:
+            stages.stage_graph(ctx, n)
     ctx.assumptions += [
         "UUIDs are pairwise distinct inside the universe (C03 scope)",
         "list item/slice assignment never receives a module that stays elsewhere in the same list, nor "
@@ -48,6 +52,108 @@ def p_tree(ctx):
         "intervaltree, sortedcontainers, networkx and protobuf are trusted",
     ]
     return "model_checking", RULE_WALK
+
+
+RULE_LOOKUP = (RULE_WALK + "; lookups: after every executed step a seeded batch of lookups (all methods x all scopes, "
+               "points and (start, stop, step) ranges biased to the boundaries of the blocks/intervals present) is "
+               "answered by the real objects and every answer is judged by TLC against the fresh-scan operators of "
+               "Gtirb.tla (each member once, Must subset answer subset May)")
+
+
+def geom_stages(ctx, lazy=False):
+    names = ["GeomB1", "GeomB2", "GeomI"] + ([] if ctx.quick() else ["GeomB2T"])
+    results = parallel(lambda n: run_tlc_config(n, emit=True), names)
+    bases = (0, core.BASES["2^64-40"]) if ctx.quick() else tuple(core.BASES.values())
+    for n, r in zip(names, results):
+        stages.stage_graph_lookups(ctx, n, result=r, bases=bases if n != "GeomB2T" else (0,),
+                                   per_step=6 if ctx.quick() else 10)
+    stages.stage_sim_lookups(ctx, "GeomSim", num=150 if ctx.quick() else 3000, depth=30 if ctx.quick() else 50,
+                             bases=bases[:2] if ctx.quick() else bases, per_step=10)
+
+
+@plan("C05", "C06")
+def p_geom(ctx):
+    geom_stages(ctx)
+    ctx.assumptions += [
+        "section/module/IR scope and stepped 'on' queries are judged with the sandwich Must <= answer <= May "
+        "(DESIGN section 4 rule 3)",
+        "addresses are abstract small naturals shifted by BASE in {0, 2^32-3, 2^63, 2^64-40}",
+    ]
+    return "model_checking", RULE_LOOKUP
+
+
+@plan("C12")
+def p_lazy(ctx):
+    names = ["LazyB", "LazyIQ"] if ctx.quick() else ["LazyB", "LazyI", "LazyIT"]
+    parallel(lambda n: run_tlc_config(n, emit=True), names)
+    for n in names:
+        stages.stage_lazy(ctx, n, max_run=150, bases=(0,) if ctx.quick() else (0, core.BASES["2^64-40"]))
+    lazy_index_stage(ctx)
+    ctx.assumptions.append("the hook-reported get() branch is coverage evidence only; verdicts use public answers")
+    return "model_checking", RULE_LOOKUP + "; schedules: the spec's Lookup actions are interleaved with edits in every order the bounded model allows"
+
+
+def lazy_index_stage(ctx):
+    """role A for the design of LazyIntervalTree itself (spec/LazyIndex.tla)"""
+    from . import tlc
+    from .build import MachineryFailure
+    cfg = tlc.render_cfg({"Vals": {"b1", "b2"}, "Offs": {0, 1} if ctx.quick() else {0, 1, 3}, "Sizes": {0, 2},
+                          "MaxEv": 4 if ctx.quick() else 5},
+                         invariants=["LazyInv", "GetIsFresh"], constraints=["Bound"])
+    r = tlc.run("LazyIndex", cfg, workers=16, coverage=True, want_records=False)
+    if r.errors:
+        raise MachineryFailure("LazyIndex: %s" % r.errors[0][:1000])
+    ctx.states += r.distinct
+    ctx.transitions += r.generated
+    if r.violation:
+        ctx.violations.append({"kind": "invariant", "props": ["C12"], "op": {"name": "LazyInv"}, "expected": "holds",
+                               "observed": r.violation[:2000], "history": [], "signature": "invariant:LazyIndex"})
+    ctx.stages.append({"stage": "model-check", "config": "LazyIndex.tla", "distinct_states": r.distinct,
+                       "transitions": r.generated, "depth": r.depth,
+                       "actions_never_taken": sorted(k for k, v in r.coverage.items() if v[1] == 0)})
+    ctx.log("mc LazyIndex: %d states, %d transitions" % (r.distinct, r.generated))
+
+
+@plan("C10")
+def p_sym(ctx):
+    names = ["Sym1", "Sym2"]
+    results = parallel(lambda n: run_tlc_config(n, emit=True), names)
+    for n, r in zip(names, results):
+        stages.stage_graph(ctx, n, result=r)
+    if not ctx.quick():
+        stages.stage_mc(ctx, "SymT", timeout=3000)
+    stages.stage_sim(ctx, "SymSim", num=150 if ctx.quick() else 3000, depth=30)
+    return "model_checking", RULE_WALK
+
+
+@plan("C11")
+def p_cfg(ctx):
+    names = ["Cfg1", "Cfg2", "CfgMove"] + ([] if ctx.quick() else ["CfgT"])
+    results = parallel(lambda n: run_tlc_config(n, emit=True), names)
+    for n, r in zip(names, results):
+        stages.stage_graph(ctx, n, result=r)
+    ctx.assumptions.append("nodes compared by identity, labels by value; label tokens map to fixed EdgeLabel values")
+    return "model_checking", RULE_WALK
+
+
+@plan("C19")
+def p_bytes(ctx):
+    names = ["BytesQ"] if ctx.quick() else ["BytesQ", "Bytes"]
+    results = parallel(lambda n: run_tlc_config(n, emit=True), names)
+    for n, r in zip(names, results):
+        stages.stage_graph_lookups(ctx, n, result=r, per_step=6,
+                                   bases=(0, core.BASES["2^64-40"]))
+    return "model_checking", RULE_LOOKUP
+
+
+@plan("C13")
+def p_symx(ctx):
+    names = ["SymX", "SymX2"] if ctx.quick() else ["SymX", "SymX2", "SymX2T"]
+    results = parallel(lambda n: run_tlc_config(n, emit=True), names)
+    for n, r in zip(names, results):
+        stages.stage_graph_lookups(ctx, n, result=r, per_step=8,
+                                   bases=(0, core.BASES["2^64-40"]) if ctx.quick() else tuple(core.BASES.values()))
+    return "model_checking", RULE_LOOKUP
 
 
 def replay_file(gtirb, prop, path):
